@@ -6,6 +6,7 @@
 From Coq Require Import ZArith List Bool Lia ZifyBool.
 From ASV Require Import Base Loc.
 From ASV.Gen Require Import K_loc_gen.
+From ASV.Tie Require Import TieLib.
 Import ListNotations.
 Open Scope Z_scope.
 
@@ -71,4 +72,31 @@ Proof.
   destruct (sort_by key_lt locs) as [|f rest]; [reflexivity|].
   induction rest as [|s rest IH]; [reflexivity|]. cbn [existsb]. rewrite IH.
   f_equal; first [reflexivity | unfold k_wrapping_shorter_step; lia].
+Qed.
+
+(* locations_overlap / location_contains_other as WHOLE functions: the compound branches recurse into the case they reach
+   (a CompoundLocation against anything -> each part against the other; a part against a CompoundLocation -> each pair
+   of parts), the simple branch is the kernel above.  The model's [overlap] / [contains] over lists of parts are these. *)
+Lemma tie_overlap a b : overlap a b = k_overlap_loc_loc a b.
+Proof.
+  unfold overlap, k_overlap_loc_loc, k_overlap_part_loc.
+  apply existsb_pointwise. intros p. apply existsb_pointwise. intros q. apply tie_part_overlap.
+Qed.
+
+Lemma tie_contains o i : contains o i = k_contains_loc_loc o i.
+Proof.
+  unfold contains, k_contains_loc_loc, k_contains_loc_part.
+  apply forallb_pointwise. intros ip. apply existsb_pointwise. intros op. apply tie_part_contains.
+Qed.
+
+(* get_distance_between_locations, the branch for locations of more than one part: 0 when they overlap, otherwise the
+   smallest distance over all pairs of parts (each pair through the single-part case, tie_pdist_* above) *)
+Lemma tie_dist a b w :
+  dist a b w = match a, b with
+               | [p], [q] => if k_overlap_loc_loc a b then 0 else pdist p q w
+               | _, _ => k_distance_compound a b w
+               end.
+Proof.
+  unfold dist, k_distance_compound. rewrite tie_overlap.
+  destruct a as [|p [|p' a]]; destruct b as [|q [|q' b]]; reflexivity.
 Qed.
